@@ -236,7 +236,8 @@ func c16R2(a *A) {
 	a.exhaustive = true
 }
 
-// stripShape classifies a return of StripChecksum.
+// stripShape classifies a return of StripChecksum by the canonical term of the buffer of the event it returns
+// (helpers that cut the checksum off are inlined).
 func stripShape(ret *ssa.Return, recv ssa.Value) string {
 	if len(ret.Results) != 3 {
 		return "?"
@@ -251,8 +252,8 @@ func stripShape(ret *ssa.Return, recv ssa.Value) string {
 		}
 		return "unchanged+checksum"
 	}
-	// composite literal {binlogEvent: binlogEvent(data[:len-4])}: find the store into its field
-	var sl *ssa.Slice
+	// composite literal {binlogEvent: binlogEvent(<slice>)}: the value stored into its field
+	var stored ssa.Value
 	if u, ok := ev.(*ssa.UnOp); ok && u.Op == token.MUL {
 		if al, ok := u.X.(*ssa.Alloc); ok {
 			for _, r := range *al.Referrers() {
@@ -262,39 +263,30 @@ func stripShape(ret *ssa.Return, recv ssa.Value) string {
 				}
 				for _, rr := range *fa.Referrers() {
 					if st, ok := rr.(*ssa.Store); ok {
-						sl, _ = strip(st.Val).(*ssa.Slice)
+						stored = st.Val
 					}
 				}
 			}
 		}
 	}
-	if sl == nil {
+	if stored == nil {
 		return "other"
 	}
-	if sl.Low != nil || sl.Max != nil || sl.High == nil {
-		return "other-slice"
-	}
-	// the sliced buffer is the receiver's bytes
-	base := strip(sl.X)
-	okBase := false
-	if c, ok := base.(*ssa.Call); ok {
-		if cal := c.Common().StaticCallee(); cal != nil && cal.Name() == "Bytes" {
-			okBase = true
+	f := ret.Parent()
+	t := newTB(nil)
+	instrs(f, func(in ssa.Instruction) {
+		if c, ok := in.(*ssa.Call); ok {
+			if cal := c.Common().StaticCallee(); cal != nil && cal.Name() == "Bytes" {
+				t.names[c] = "buf"
+			}
 		}
+	})
+	term := t.sliceTerm(strip(stored))
+	var k int64
+	if n, _ := fmt.Sscanf(term, "buf[:len(buf)-%d]", &k); n == 1 && term == fmt.Sprintf("buf[:len(buf)-%d]", k) {
+		return fmt.Sprintf("strip%d", k)
 	}
-	if !okBase {
-		return "other-base"
-	}
-	b, ok := sl.High.(*ssa.BinOp)
-	if !ok || b.Op != token.SUB {
-		return "other-bound"
-	}
-	k, isK := constInt(b.Y)
-	ln, isLen := b.X.(*ssa.Call)
-	if !isK || !isLen || !isBuiltin(ln.Common(), "len") || strip(ln.Common().Args[0]) != base {
-		return "other-bound"
-	}
-	return fmt.Sprintf("strip%d", k)
+	return "other(" + term + ")"
 }
 
 // v4 header layout (MySQL internals: event header fields).
@@ -312,50 +304,32 @@ func c16R3(a *A) {
 			continue
 		}
 		a.touch(f)
-		x := newWF(f)
-		// base = Bytes() of the receiver at offset 0
+		// canonical term of the returned value over the event buffer "buf" (= the receiver / its Bytes())
+		t := newTB(nil)
+		t.names[f.Params[0]] = "buf"
 		instrs(f, func(in ssa.Instruction) {
 			if c, ok := in.(*ssa.Call); ok {
-				if cal := c.Common().StaticCallee(); cal != nil && cal.Name() == "Bytes" {
-					x.bases[c] = affConst(0)
+				if cal := c.Common().StaticCallee(); cal != nil && cal.Name() == "Bytes" && len(c.Common().Args) == 1 && strip(c.Common().Args[0]) == ssa.Value(f.Params[0]) {
+					t.names[c] = "buf"
 				}
 			}
 		})
-		x.bases[f.Params[0]] = affConst(0)
-		var facts []string
-		okAll := true
-		for _, rd := range x.reads() {
-			facts = append(facts, rd.String())
-			var lo, hi int64
-			if _, err := fmt.Sscanf(rd.Range, "[%d,%d)", &lo, &hi); err != nil {
-				if _, err := fmt.Sscanf(rd.Range, "[%d]", &lo); err != nil {
-					okAll = false
-					continue
-				}
-				hi = lo + 1
-			}
-			got[name] = [2]int64{lo, hi}
-			// multi-byte fields are little-endian
-			if hi-lo > 1 {
-				le := false
-				if s, ok := rd.In.(*ssa.Slice); ok {
-					for _, r := range *s.Referrers() {
-						if c, ok := r.(*ssa.Call); ok {
-							if cal := c.Common().StaticCallee(); cal != nil && strings.Contains(cal.String(), "littleEndian") {
-								le = true
-							}
-						}
-					}
-				}
-				if !le {
-					okAll = false
-					facts = append(facts, "not-little-endian")
-				}
-			}
-		}
 		want := headerSpec[name]
-		a.check(okAll && got[name] == want, rule, "header@"+name, w.pos(f.Pos()), fmt.Sprintf("reads bytes [%d,%d) little-endian", want[0], want[1]),
-			fmt.Sprintf("%s() reads %v; the v4 event header has this field at bytes [%d,%d), little-endian", name, facts, want[0], want[1]))
+		wantT := fmt.Sprintf("LE(%d,buf[%d])", want[1]-want[0], want[0])
+		if want[1]-want[0] == 1 {
+			wantT = fmt.Sprintf("buf[%d]", want[0])
+		}
+		var terms []string
+		for _, ret := range returnsOf(f) {
+			terms = append(terms, t.term(ret.Results[0]).String())
+		}
+		terms = uniq(terms)
+		ok := len(terms) == 1 && terms[0] == wantT
+		if ok {
+			got[name] = want
+		}
+		a.check(ok, rule, "header@"+name, w.pos(f.Pos()), fmt.Sprintf("reads bytes [%d,%d) little-endian", want[0], want[1]),
+			fmt.Sprintf("%s() returns %v; the v4 event header has this field at bytes [%d,%d), little-endian (%s)", name, terms, want[0], want[1], wantT))
 	}
 	// writer agreement (the package's own packet builder)
 	pk := w.method(w.Repl, "FakeBinlogStream", "Packetize")
@@ -598,6 +572,7 @@ func c16R5(a *A) {
 				continue
 			}
 			x := newWF(q)
+			x.res = res
 			x.extra = func(v ssa.Value) (aff, bool) {
 				if v == ssa.Value(phi) {
 					return affAtom("pos"), true
